@@ -6,8 +6,8 @@
     210-233, AsyncRead 235-251, AsyncSeek 253-268, AsyncBufRead 270-284,
     futures Stream 286-304, io::Write 306-328) and the rayon plumbing wrappers of
     /repo/src/rayon.rs (IndexedParallelIterator 48-87, ProgressProducer 89-126,
-    ProgressProducerIter 128-166, ProgressConsumer 168-213, ProgressFolder
-    215-238, ParallelIterator 240-247) over an ARBITRARY inner object: the inner
+    ProgressProducerIter 130-165, ProgressConsumer 167-212, ProgressFolder
+    214-237, ParallelIterator 239-246) over an ARBITRARY inner object: the inner
     object is a record of step functions over an abstract state type [S]; all
     of its nondeterminism (short transfers, errors, Pending, what it writes into
     the caller's buffers) is whatever those functions return.
@@ -168,3 +168,871 @@ Arguments i_poll_fill_buf {S E Item Data} _ _.
 Arguments i_aconsume {S E Item Data} _ _ _.
 Arguments i_poll_next {S E Item Data} _ _.
 Arguments i_stream_size_hint {S E Item Data} _ _.
+
+(* ------------------------------------------------------------------ *)
+(** * ProgressBarIter<T>: the wrappers, line by line                    *)
+Section Wrappers.
+  Variables S E Item Data : Type.
+  Variable I : inner S E Item Data.
+
+  (** ProgressBarIter { it, progress }: the inner object and (a handle on) the bar *)
+  Definition W : Type := (S * bar)%type.
+
+  (* impl Iterator: next, iter.rs:120-130 *)
+  Definition w_next (w : W) : W * option Item :=
+    let '(s, b) := w in
+    let '(s', item) := i_next I s in                         (* let item = self.it.next(); *)
+    let b' := match item with
+              | Some _ => bar_inc b 1                         (* if item.is_some() { inc(1) } *)
+              | None => if negb (bar_is_finished b)           (* else if !is_finished() *)
+                        then bar_finish_using_style b         (*   { finish_using_style() } *)
+                        else b
+              end in
+    ((s', b'), item).
+
+  (* impl Iterator: size_hint (forwarded, fix e76d6b6), iter.rs:132-134 *)
+  Definition w_size_hint (w : W) : N * option N := i_size_hint I (fst w).
+
+  (* impl ExactSizeIterator: len, iter.rs:138-140 *)
+  Definition w_len (w : W) : N := i_len I (fst w).
+
+  (* impl DoubleEndedIterator: next_back, iter.rs:144-154 *)
+  Definition w_next_back (w : W) : W * option Item :=
+    let '(s, b) := w in
+    let '(s', item) := i_next_back I s in
+    let b' := match item with
+              | Some _ => bar_inc b 1
+              | None => if negb (bar_is_finished b) then bar_finish_using_style b else b
+              end in
+    ((s', b'), item).
+
+  (* impl io::Read: read 160-164, read_vectored 166-170, read_to_string 172-176, read_exact 178-182 *)
+  Definition w_read (w : W) (n : N) : W * (Data * io_result E N) :=
+    let '(s, b) := w in
+    let '(s', (d, r)) := i_read I s n in
+    match r with
+    | IoErr e => ((s', b), (d, IoErr e))                      (* `?` returns the error *)
+    | IoOk inc => ((s', bar_inc b inc), (d, IoOk inc))        (* inc(inc as u64); Ok(inc) *)
+    end.
+
+  Definition w_read_vectored (w : W) (ns : list N) : W * (Data * io_result E N) :=
+    let '(s, b) := w in
+    let '(s', (d, r)) := i_read_vectored I s ns in
+    match r with
+    | IoErr e => ((s', b), (d, IoErr e))
+    | IoOk inc => ((s', bar_inc b inc), (d, IoOk inc))
+    end.
+
+  Definition w_read_to_string (w : W) : W * (Data * io_result E N) :=
+    let '(s, b) := w in
+    let '(s', (d, r)) := i_read_to_string I s in
+    match r with
+    | IoErr e => ((s', b), (d, IoErr e))
+    | IoOk inc => ((s', bar_inc b inc), (d, IoOk inc))
+    end.
+
+  (* read_exact: on Ok(()) counts buf.len(); on Err counts nothing, whatever was transferred *)
+  Definition w_read_exact (w : W) (n : N) : W * (Data * io_result E unit) :=
+    let '(s, b) := w in
+    let '(s', (d, r)) := i_read_exact I s n in
+    match r with
+    | IoErr e => ((s', b), (d, IoErr e))
+    | IoOk tt => ((s', bar_inc b n), (d, IoOk tt))            (* inc(buf.len() as u64) *)
+    end.
+
+  (* impl io::BufRead: fill_buf 186-188, consume 190-193 *)
+  Definition w_fill_buf (w : W) : W * io_result E Data :=
+    let '(s, b) := w in
+    let '(s', r) := i_fill_buf I s in ((s', b), r).
+
+  Definition w_consume (w : W) (amt : N) : W :=
+    let '(s, b) := w in
+    (i_consume I s amt, bar_inc b amt).                       (* it.consume(amt); inc(amt) *)
+
+  (* impl io::Seek: seek 197-202, stream_position 205-207 *)
+  Definition w_seek (w : W) (f : seek_from) : W * io_result E N :=
+    let '(s, b) := w in
+    let '(s', r) := i_seek I s f in
+    match r with
+    | IoOk pos => ((s', bar_set_position b pos), IoOk pos)    (* .map(|pos| { set_position(pos); pos }) *)
+    | IoErr e => ((s', b), IoErr e)
+    end.
+
+  Definition w_stream_position (w : W) : W * io_result E N :=
+    let '(s, b) := w in
+    let '(s', r) := i_stream_position I s in ((s', b), r).
+
+  (* impl io::Write: write 307-312, write_vectored 314-319, flush 321-323 *)
+  Definition w_write (w : W) (d : Data) : W * io_result E N :=
+    let '(s, b) := w in
+    let '(s', r) := i_write I s d in
+    match r with
+    | IoOk inc => ((s', bar_inc b inc), IoOk inc)
+    | IoErr e => ((s', b), IoErr e)
+    end.
+
+  Definition w_write_vectored (w : W) (ds : list Data) : W * io_result E N :=
+    let '(s, b) := w in
+    let '(s', r) := i_write_vectored I s ds in
+    match r with
+    | IoOk inc => ((s', bar_inc b inc), IoOk inc)
+    | IoErr e => ((s', b), IoErr e)
+    end.
+
+  Definition w_flush (w : W) : W * io_result E unit :=
+    let '(s, b) := w in
+    let '(s', r) := i_flush I s in ((s', b), r).
+
+  (* impl tokio AsyncWrite: poll_write 213-224, poll_flush 226-228, poll_shutdown 230-232 *)
+  Definition w_poll_write (w : W) (d : Data) : W * poll (io_result E N) :=
+    let '(s, b) := w in
+    let '(s', r) := i_poll_write I s d in
+    match r with
+    | Ready (IoOk inc) => ((s', bar_inc b inc), Ready (IoOk inc))
+    | Ready (IoErr e) => ((s', b), Ready (IoErr e))
+    | Pending => ((s', b), Pending)
+    end.
+
+  Definition w_poll_flush (w : W) : W * poll (io_result E unit) :=
+    let '(s, b) := w in
+    let '(s', r) := i_poll_flush I s in ((s', b), r).
+
+  Definition w_poll_shutdown (w : W) : W * poll (io_result E unit) :=
+    let '(s, b) := w in
+    let '(s', r) := i_poll_shutdown I s in ((s', b), r).
+
+  (* impl tokio AsyncRead: poll_read, iter.rs:238-250.  `buf.filled().len() as u64 - prev_len` is a checked
+     subtraction in the builds the harness uses (overflow-checks on): an inner object that
+     SHRINKS the filled region makes it panic (release builds wrap).  Ready(Err) counts the
+     bytes filled before the error as well. *)
+  Definition w_poll_read (w : W) (filled cap : N)
+    : outcome (W * (Data * N * poll (io_result E unit))) :=
+    let '(s, b) := w in
+    let prev_len := filled in
+    let '(s', (d, filled', r)) := i_poll_read I s filled cap in
+    match r with
+    | Ready e =>
+        if filled' <? prev_len then Panic 1
+        else Ok ((s', bar_inc b (filled' - prev_len)), (d, filled', Ready e))
+    | Pending => Ok ((s', b), (d, filled', Pending))
+    end.
+
+  (* impl tokio AsyncSeek: start_seek 256-258, poll_complete 260-267 (sets the position, fix 7186563) *)
+  Definition w_start_seek (w : W) (f : seek_from) : W * io_result E unit :=
+    let '(s, b) := w in
+    let '(s', r) := i_start_seek I s f in ((s', b), r).
+
+  Definition w_poll_complete (w : W) : W * poll (io_result E N) :=
+    let '(s, b) := w in
+    let '(s', r) := i_poll_complete I s in
+    match r with
+    | Ready (IoOk pos) => ((s', bar_set_position b pos), Ready (IoOk pos))
+    | Ready (IoErr e) => ((s', b), Ready (IoErr e))
+    | Pending => ((s', b), Pending)
+    end.
+
+  (* impl tokio AsyncBufRead: poll_fill_buf 275-278, consume 280-283 (after fix e424c71: counts in consume, like BufRead) *)
+  Definition w_poll_fill_buf (w : W) : W * poll (io_result E Data) :=
+    let '(s, b) := w in
+    let '(s', r) := i_poll_fill_buf I s in ((s', b), r).
+
+  Definition w_aconsume (w : W) (amt : N) : W :=
+    let '(s, b) := w in
+    (i_aconsume I s amt, bar_inc b amt).
+
+  (* impl futures_core::Stream: poll_next, iter.rs:291-303 – NOTE: unlike Iterator::next there is no
+     `!is_finished()` test: every Ready(None) runs finish_using_style again. *)
+  Definition w_poll_next (w : W) : W * poll (option Item) :=
+    let '(s, b) := w in
+    let '(s', item) := i_poll_next I s in
+    let b' := match item with
+              | Ready (Some _) => bar_inc b 1
+              | Ready None => bar_finish_using_style b
+              | Pending => b
+              end in
+    ((s', b'), item).
+
+  (* Stream::size_hint is NOT overridden: futures_core's default *)
+  Definition w_stream_size_hint (w : W) : N * option N := (0, None).
+
+  (** ** One type for "a call on the adaptor" / "the same call on the bare object" *)
+  Inductive call :=
+  | CNext | CNextBack | CSizeHint | CLen
+  | CRead (n : N) | CReadVectored (ns : list N) | CReadToString | CReadExact (n : N)
+  | CFillBuf | CConsume (amt : N)
+  | CSeek (f : seek_from) | CStreamPosition
+  | CWrite (d : Data) | CWriteVectored (ds : list Data) | CFlush
+  | CPollWrite (d : Data) | CPollFlush | CPollShutdown
+  | CPollRead (filled cap : N)
+  | CStartSeek (f : seek_from) | CPollComplete
+  | CPollFillBuf | CAConsume (amt : N)
+  | CPollNext | CStreamSizeHint.
+
+  Inductive ret :=
+  | RItem (o : option Item)
+  | RHint (h : N * option N)
+  | RLen (n : N)
+  | RCount (d : Data) (r : io_result E N)          (* read-like: data put in the buffer, result *)
+  | RExact (d : Data) (r : io_result E unit)
+  | RSlice (r : io_result E Data)
+  | RUnit                                          (* consume *)
+  | RNum (r : io_result E N)                       (* seek, stream_position, write* *)
+  | RDone (r : io_result E unit)                   (* flush, start_seek *)
+  | RPollNum (r : poll (io_result E N))
+  | RPollDone (r : poll (io_result E unit))
+  | RPollRead (d : Data) (filled' : N) (r : poll (io_result E unit))
+  | RPollSlice (r : poll (io_result E Data))
+  | RPollItem (r : poll (option Item)).
+
+  (** the call on the UNWRAPPED object *)
+  Definition bare_step (s : S) (c : call) : S * ret :=
+    match c with
+    | CNext => let '(s', o) := i_next I s in (s', RItem o)
+    | CNextBack => let '(s', o) := i_next_back I s in (s', RItem o)
+    | CSizeHint => (s, RHint (i_size_hint I s))
+    | CLen => (s, RLen (i_len I s))
+    | CRead n => let '(s', (d, r)) := i_read I s n in (s', RCount d r)
+    | CReadVectored ns => let '(s', (d, r)) := i_read_vectored I s ns in (s', RCount d r)
+    | CReadToString => let '(s', (d, r)) := i_read_to_string I s in (s', RCount d r)
+    | CReadExact n => let '(s', (d, r)) := i_read_exact I s n in (s', RExact d r)
+    | CFillBuf => let '(s', r) := i_fill_buf I s in (s', RSlice r)
+    | CConsume amt => (i_consume I s amt, RUnit)
+    | CSeek f => let '(s', r) := i_seek I s f in (s', RNum r)
+    | CStreamPosition => let '(s', r) := i_stream_position I s in (s', RNum r)
+    | CWrite d => let '(s', r) := i_write I s d in (s', RNum r)
+    | CWriteVectored ds => let '(s', r) := i_write_vectored I s ds in (s', RNum r)
+    | CFlush => let '(s', r) := i_flush I s in (s', RDone r)
+    | CPollWrite d => let '(s', r) := i_poll_write I s d in (s', RPollNum r)
+    | CPollFlush => let '(s', r) := i_poll_flush I s in (s', RPollDone r)
+    | CPollShutdown => let '(s', r) := i_poll_shutdown I s in (s', RPollDone r)
+    | CPollRead f cap => let '(s', (d, f', r)) := i_poll_read I s f cap in (s', RPollRead d f' r)
+    | CStartSeek f => let '(s', r) := i_start_seek I s f in (s', RDone r)
+    | CPollComplete => let '(s', r) := i_poll_complete I s in (s', RPollNum r)
+    | CPollFillBuf => let '(s', r) := i_poll_fill_buf I s in (s', RPollSlice r)
+    | CAConsume amt => (i_aconsume I s amt, RUnit)
+    | CPollNext => let '(s', r) := i_poll_next I s in (s', RPollItem r)
+    | CStreamSizeHint => (s, RHint (i_stream_size_hint I s))
+    end.
+
+  (** the call on the adaptor *)
+  Definition wrap_step (w : W) (c : call) : outcome (W * ret) :=
+    match c with
+    | CNext => let '(w', o) := w_next w in Ok (w', RItem o)
+    | CNextBack => let '(w', o) := w_next_back w in Ok (w', RItem o)
+    | CSizeHint => Ok (w, RHint (w_size_hint w))
+    | CLen => Ok (w, RLen (w_len w))
+    | CRead n => let '(w', (d, r)) := w_read w n in Ok (w', RCount d r)
+    | CReadVectored ns => let '(w', (d, r)) := w_read_vectored w ns in Ok (w', RCount d r)
+    | CReadToString => let '(w', (d, r)) := w_read_to_string w in Ok (w', RCount d r)
+    | CReadExact n => let '(w', (d, r)) := w_read_exact w n in Ok (w', RExact d r)
+    | CFillBuf => let '(w', r) := w_fill_buf w in Ok (w', RSlice r)
+    | CConsume amt => Ok (w_consume w amt, RUnit)
+    | CSeek f => let '(w', r) := w_seek w f in Ok (w', RNum r)
+    | CStreamPosition => let '(w', r) := w_stream_position w in Ok (w', RNum r)
+    | CWrite d => let '(w', r) := w_write w d in Ok (w', RNum r)
+    | CWriteVectored ds => let '(w', r) := w_write_vectored w ds in Ok (w', RNum r)
+    | CFlush => let '(w', r) := w_flush w in Ok (w', RDone r)
+    | CPollWrite d => let '(w', r) := w_poll_write w d in Ok (w', RPollNum r)
+    | CPollFlush => let '(w', r) := w_poll_flush w in Ok (w', RPollDone r)
+    | CPollShutdown => let '(w', r) := w_poll_shutdown w in Ok (w', RPollDone r)
+    | CPollRead f cap =>
+        match w_poll_read w f cap with
+        | Ok (w', (d, f', r)) => Ok (w', RPollRead d f' r)
+        | Panic k => Panic k
+        end
+    | CStartSeek f => let '(w', r) := w_start_seek w f in Ok (w', RDone r)
+    | CPollComplete => let '(w', r) := w_poll_complete w in Ok (w', RPollNum r)
+    | CPollFillBuf => let '(w', r) := w_poll_fill_buf w in Ok (w', RPollSlice r)
+    | CAConsume amt => Ok (w_aconsume w amt, RUnit)
+    | CPollNext => let '(w', r) := w_poll_next w in Ok (w', RPollItem r)
+    | CStreamSizeHint => Ok (w, RHint (w_stream_size_hint w))
+    end.
+
+  (** ** Specification side: what a (call, result) pair of the BARE object must do to the bar.
+      Written from the property text, not from the code. *)
+  Inductive effect :=
+  | EAdd (n : N)            (* n items / bytes were transferred *)
+  | ESet (p : N)            (* a seek arrived at offset p *)
+  | EExhausted              (* a blocking iterator reported exhaustion *)
+  | EStreamEnd              (* a stream reported its end *)
+  | ENothing.
+
+  Definition effect_of (c : call) (r : ret) : effect :=
+    match c, r with
+    | (CNext | CNextBack), RItem (Some _) => EAdd 1
+    | (CNext | CNextBack), RItem None => EExhausted
+    | (CRead _ | CReadVectored _ | CReadToString), RCount _ (IoOk n) => EAdd n
+    | CReadExact n, RExact _ (IoOk _) => EAdd n
+    | (CConsume amt | CAConsume amt), _ => EAdd amt
+    | (CWrite _ | CWriteVectored _), RNum (IoOk n) => EAdd n
+    | CSeek _, RNum (IoOk p) => ESet p
+    | CPollWrite _, RPollNum (Ready (IoOk n)) => EAdd n
+    | CPollRead f _, RPollRead _ f' (Ready _) => EAdd (f' - f)
+    | CPollComplete, RPollNum (Ready (IoOk p)) => ESet p
+    | CPollNext, RPollItem (Ready (Some _)) => EAdd 1
+    | CPollNext, RPollItem (Ready None) => EStreamEnd
+    | _, _ => ENothing
+    end.
+
+  Definition apply_effect (b : bar) (e : effect) : bar :=
+    match e with
+    | EAdd n => bar_inc b n
+    | ESet p => bar_set_position b p
+    | EExhausted => if bar_is_finished b then b else bar_finish_using_style b
+    | EStreamEnd => bar_finish_using_style b
+    | ENothing => b
+    end.
+
+  (** calls whose result the adaptor does not take from the inner object *)
+  Definition not_forwarded (c : call) : bool :=
+    match c with CStreamSizeHint => true | _ => false end.
+
+  (** the inner object honours the ReadBuf contract on this call: the filled region does not shrink *)
+  Definition readbuf_ok (c : call) (r : ret) : bool :=
+    match c, r with
+    | CPollRead f _, RPollRead _ f' (Ready _) => f <=? f'
+    | _, _ => true
+    end.
+
+  (** ** Callers: arbitrary adaptive programs over the calls (std's default methods –
+      read_to_end, write_all, read_line, nth, fold, io::copy ... – are such programs) *)
+  Inductive prog :=
+  | PDone
+  | PCall (c : call) (k : ret -> prog).
+
+  Fixpoint run_bare (p : prog) (s : S) : S * list (call * ret) :=
+    match p with
+    | PDone => (s, [])
+    | PCall c k =>
+        let '(s', r) := bare_step s c in
+        let '(s'', t) := run_bare (k r) s' in
+        (s'', (c, r) :: t)
+    end.
+
+  Fixpoint run_wrap (p : prog) (w : W) : outcome (W * list (call * ret)) :=
+    match p with
+    | PDone => Ok (w, [])
+    | PCall c k =>
+        match wrap_step w c with
+        | Panic site => Panic site
+        | Ok (w', r) =>
+            match run_wrap (k r) w' with
+            | Panic site => Panic site
+            | Ok (w'', t) => Ok (w'', (c, r) :: t)
+            end
+        end
+    end.
+
+  Definition trace_ok (t : list (call * ret)) : bool :=
+    forallb (fun cr => negb (not_forwarded (fst cr)) && readbuf_ok (fst cr) (snd cr)) t.
+
+  Definition bar_after (b : bar) (t : list (call * ret)) : bar :=
+    fold_left (fun b cr => apply_effect b (effect_of (fst cr) (snd cr))) t b.
+
+End Wrappers.
+
+Arguments CNext {Data}.
+Arguments CNextBack {Data}.
+Arguments CSizeHint {Data}.
+Arguments CLen {Data}.
+Arguments CRead {Data} n.
+Arguments CReadVectored {Data} ns.
+Arguments CReadToString {Data}.
+Arguments CReadExact {Data} n.
+Arguments CFillBuf {Data}.
+Arguments CConsume {Data} amt.
+Arguments CSeek {Data} f.
+Arguments CStreamPosition {Data}.
+Arguments CWrite {Data} d.
+Arguments CWriteVectored {Data} ds.
+Arguments CFlush {Data}.
+Arguments CPollWrite {Data} d.
+Arguments CPollFlush {Data}.
+Arguments CPollShutdown {Data}.
+Arguments CPollRead {Data} filled cap.
+Arguments CStartSeek {Data} f.
+Arguments CPollComplete {Data}.
+Arguments CPollFillBuf {Data}.
+Arguments CAConsume {Data} amt.
+Arguments CPollNext {Data}.
+Arguments CStreamSizeHint {Data}.
+Arguments RItem {E Item Data} o.
+Arguments RHint {E Item Data} h.
+Arguments RLen {E Item Data} n.
+Arguments RCount {E Item Data} d r.
+Arguments RExact {E Item Data} d r.
+Arguments RSlice {E Item Data} r.
+Arguments RUnit {E Item Data}.
+Arguments RNum {E Item Data} r.
+Arguments RDone {E Item Data} r.
+Arguments RPollNum {E Item Data} r.
+Arguments RPollDone {E Item Data} r.
+Arguments RPollRead {E Item Data} d filled' r.
+Arguments RPollSlice {E Item Data} r.
+Arguments RPollItem {E Item Data} r.
+Arguments PDone {E Item Data}.
+Arguments PCall {E Item Data} c k.
+
+(* ------------------------------------------------------------------ *)
+(** * rayon: ProgressConsumer / ProgressFolder / ProgressProducer / ProgressProducerIter *)
+(** The base consumer / producer are arbitrary (Variables); the driver (rayon's
+    bridge, a ProducerCallback, the inner parallel iterator) is an arbitrary split
+    tree whose leaves run on arbitrary threads.  Every wrapper forwards to the base
+    and hands each part a clone of the same ProgressBar; the only bar operation is
+    [inc(1)], so the model returns, per leaf (= per sequential task), the list of
+    increments that leaf performs on the shared bar. *)
+Section Rayon.
+  Variables Item C F R Res P It : Type.
+  (* rayon::iter::plumbing::{Consumer, UnindexedConsumer, Folder, Reducer} of the base *)
+  Variable c_split_at : C -> N -> C * C * R.
+  Variable c_split_off_left : C -> C.
+  Variable c_to_reducer : C -> R.
+  Variable c_into_folder : C -> F.
+  Variable f_consume : F -> Item -> F.
+  Variable f_complete : F -> Res.
+  Variable r_reduce : R -> Res -> Res -> Res.
+  (* rayon::iter::plumbing::Producer of the base and its IntoIter *)
+  Variable p_split_at : P -> N -> P * P.
+  Variable p_into_iter : P -> It.
+  Variable it_next : It -> It * option Item.
+  Variable it_next_back : It -> It * option Item.
+
+  (** how the driver uses a consumer: split_at / split_off_left+to_reducer / fold a leaf *)
+  Inductive dtree :=
+  | DLeaf (items : list Item)                 (* into_folder(); consume(item)...; complete() *)
+  | DSplitAt (index : N) (l r : dtree)
+  | DSplitOff (l r : dtree).
+
+  Fixpoint drive_bare (c : C) (t : dtree) : Res :=
+    match t with
+    | DLeaf items => f_complete (fold_left f_consume items (c_into_folder c))
+    | DSplitAt i l r =>
+        let '(cl, cr, red) := c_split_at c i in
+        r_reduce red (drive_bare cl l) (drive_bare cr r)
+    | DSplitOff l r =>
+        let cl := c_split_off_left c in
+        let red := c_to_reducer c in
+        r_reduce red (drive_bare cl l) (drive_bare c r)
+    end.
+
+  (* ProgressFolder::consume, rayon.rs:222-228: progress.inc(1); base.consume(item) *)
+  Definition pf_consume (fe : F * list N) (item : Item) : F * list N :=
+    let '(f, evs) := fe in (f_consume f item, evs ++ [1]).
+
+  (* ProgressConsumer: split_at 183-190, into_folder 192-197, split_off_left 205-207,
+     to_reducer 209-211; ProgressFolder::complete 230-232 *)
+  Fixpoint drive_wrap (c : C) (t : dtree) : Res * list (list N) :=
+    match t with
+    | DLeaf items =>
+        let '(f, evs) := fold_left pf_consume items (c_into_folder c, []) in
+        (f_complete f, [evs])
+    | DSplitAt i l r =>
+        let '(cl, cr, red) := c_split_at c i in
+        let '(rl, el) := drive_wrap cl l in
+        let '(rr, er) := drive_wrap cr r in
+        (r_reduce red rl rr, el ++ er)
+    | DSplitOff l r =>
+        let cl := c_split_off_left c in
+        let red := c_to_reducer c in
+        let '(rl, el) := drive_wrap cl l in
+        let '(rr, er) := drive_wrap c r in
+        (r_reduce red rl rr, el ++ er)
+    end.
+
+  Fixpoint dleaves (t : dtree) : list (list Item) :=
+    match t with
+    | DLeaf items => [items]
+    | DSplitAt _ l r | DSplitOff l r => dleaves l ++ dleaves r
+    end.
+
+  (** how a ProducerCallback uses a producer: split_at / into_iter and iterate a leaf *)
+  Inductive itcall := INext | INextBack.
+  Inductive ptree :=
+  | PLeaf (calls : list itcall)
+  | PSplit (index : N) (l r : ptree).
+
+  Definition it_call (it : It) (c : itcall) : It * option Item :=
+    match c with INext => it_next it | INextBack => it_next_back it end.
+
+  Fixpoint leaf_bare (it : It) (calls : list itcall) : It * list (option Item) :=
+    match calls with
+    | [] => (it, [])
+    | c :: r =>
+        let '(it', o) := it_call it c in
+        let '(it'', os) := leaf_bare it' r in (it'', o :: os)
+    end.
+
+  (* ProgressProducerIter::next 138-144 / next_back 158-164:
+     let item = self.it.next(); if item.is_some() { self.progress.inc(1) }; item *)
+  Fixpoint leaf_wrap (it : It) (calls : list itcall) : It * list (option Item) * list N :=
+    match calls with
+    | [] => (it, [], [])
+    | c :: r =>
+        let '(it', o) := it_call it c in
+        let '(it'', os, evs) := leaf_wrap it' r in
+        (it'', o :: os, match o with Some _ => 1 :: evs | None => evs end)
+    end.
+
+  Fixpoint produce_bare (p : P) (t : ptree) : list (It * list (option Item)) :=
+    match t with
+    | PLeaf calls => [leaf_bare (p_into_iter p) calls]
+    | PSplit i l r => let '(pl, pr) := p_split_at p i in produce_bare pl l ++ produce_bare pr r
+    end.
+
+  (* ProgressProducer::split_at 113-126 (both halves share the bar), into_iter 98-103 *)
+  Fixpoint produce_wrap (p : P) (t : ptree) : list (It * list (option Item)) * list (list N) :=
+    match t with
+    | PLeaf calls =>
+        let '(it, os, evs) := leaf_wrap (p_into_iter p) calls in ([(it, os)], [evs])
+    | PSplit i l r =>
+        let '(pl, pr) := p_split_at p i in
+        let '(ol, el) := produce_wrap pl l in
+        let '(or, er) := produce_wrap pr r in
+        (ol ++ or, el ++ er)
+    end.
+
+  Definition count_some (os : list (option Item)) : nat :=
+    length (filter (fun o => match o with Some _ => true | None => false end) os).
+End Rayon.
+
+Arguments DLeaf {Item} items.
+Arguments DSplitAt {Item} index l r.
+Arguments DSplitOff {Item} l r.
+
+(** every schedule of the leaves' increments on the shared atomic position *)
+Inductive Interleave {A} : list (list A) -> list A -> Prop :=
+| Interleave_nil : forall ts, Forall (fun t => t = []) ts -> Interleave ts []
+| Interleave_cons : forall pre x t post l,
+    Interleave (pre ++ t :: post) l -> Interleave (pre ++ (x :: t) :: post) (x :: l).
+
+Definition bar_run_incs (b : bar) (l : list N) : bar := fold_left bar_inc l b.
+
+Definition total_len {A} (ts : list (list A)) : nat := length (concat ts).
+
+(* ------------------------------------------------------------------ *)
+(** * The scripted inner object of the harness (harness/src/bin/c17.rs `Scripted`) *)
+(** One script event is consumed by every inner call that has an outcome to
+    choose; the object keeps a stream offset [s_ctr] (read data is the pattern
+    (ctr+i) mod 251) and a rolling hash [s_sink] of every argument it was given. *)
+Inductive ev :=
+| EvN (n : N)                 (* succeed with count / offset n *)
+| EvErr (c : N)               (* fail with error code c *)
+| EvPend                      (* Pending (blocking calls: error 11) *)
+| EvItem (x : N)              (* yield item x *)
+| EvEnd                       (* None / EOF *)
+| EvPartialErr (k c : N)      (* transfer k bytes, then fail with c *)
+| EvShrink (k : N).           (* poll_read: shrink the filled region by k (contract breach) *)
+
+Record sstate := { s_evs : list ev; s_ctr : N; s_sink : N }.
+
+Definition HASH_M : N := 2305843009213693951.
+Definition mix (h x : N) : N := (h * 1000003 + x + 1) mod HASH_M.
+
+Fixpoint pat_nat (ctr : N) (k : nat) : list N :=
+  match k with O => [] | S k' => (ctr mod 251) :: pat_nat (wadd64 ctr 1) k' end.
+Definition pat (ctr k : N) : list N := pat_nat ctr (N.to_nat k).
+Definition pat_str (ctr k : N) : list N := map (fun x => 97 + x mod 26) (pat ctr k).
+
+Definition spop (s : sstate) : ev * sstate :=
+  match s_evs s with
+  | [] => (EvEnd, s)
+  | e :: r => (e, {| s_evs := r; s_ctr := s_ctr s; s_sink := s_sink s |})
+  end.
+Definition s_adv (s : sstate) (k : N) : sstate :=
+  {| s_evs := s_evs s; s_ctr := wadd64 (s_ctr s) k; s_sink := s_sink s |}.
+Definition s_goto (s : sstate) (k : N) : sstate :=
+  {| s_evs := s_evs s; s_ctr := k; s_sink := s_sink s |}.
+Definition s_mix (s : sstate) (x : N) : sstate :=
+  {| s_evs := s_evs s; s_ctr := s_ctr s; s_sink := mix (s_sink s) x |}.
+
+Inductive cres := CK (k : N) | CE (c : N) | CP.
+Definition norm (e : ev) : cres :=
+  match e with
+  | EvN k => CK k | EvErr c => CE c | EvPend => CP
+  | EvPartialErr _ c => CE c
+  | EvItem _ | EvEnd | EvShrink _ => CK 0
+  end.
+
+Definition E_WOULDBLOCK : N := 11.
+Definition E_EOF : N := 38.
+
+Definition sc_item (back : bool) (s : sstate) : sstate * option N :=
+  let '(e, s') := spop s in
+  match e with
+  | EvItem x => (s', Some (if back then x + 1000000 else x))
+  | _ => (s', None)
+  end.
+
+Fixpoint leading_items (l : list ev) : N :=
+  match l with EvItem _ :: r => 1 + leading_items r | _ => 0 end.
+
+Definition sc_read (s : sstate) (n : N) : sstate * (list N * io_result N N) :=
+  let '(e, s') := spop s in
+  match norm e with
+  | CK k => let m := N.min k n in (s_adv s' m, (pat (s_ctr s') m, IoOk m))
+  | CE c => (s', ([], IoErr c))
+  | CP => (s', ([], IoErr E_WOULDBLOCK))
+  end.
+
+Definition sum_N (l : list N) : N := fold_right N.add 0 l.
+
+Definition sc_read_to_string (s : sstate) : sstate * (list N * io_result N N) :=
+  let '(e, s') := spop s in
+  match norm e with
+  | CK k => let m := N.min k 40 in (s_adv s' m, (pat_str (s_ctr s') m, IoOk m))
+  | CE c => (s', ([], IoErr c))
+  | CP => (s', ([], IoErr E_WOULDBLOCK))
+  end.
+
+Definition sc_read_exact (s : sstate) (n : N) : sstate * (list N * io_result N unit) :=
+  let '(e, s') := spop s in
+  match e with
+  | EvPartialErr k c => let m := N.min k n in (s_adv s' m, (pat (s_ctr s') m, IoErr c))
+  | _ =>
+      match norm e with
+      | CK k => if n <=? k then (s_adv s' n, (pat (s_ctr s') n, IoOk tt))
+                else (s_adv s' k, (pat (s_ctr s') k, IoErr E_EOF))
+      | CE c => (s', ([], IoErr c))
+      | CP => (s', ([], IoErr E_WOULDBLOCK))
+      end
+  end.
+
+Definition sc_fill_buf (s : sstate) : sstate * io_result N (list N) :=
+  let '(e, s') := spop s in
+  match norm e with
+  | CK k => (s', IoOk (pat (s_ctr s') (N.min k 32)))
+  | CE c => (s', IoErr c)
+  | CP => (s', IoErr E_WOULDBLOCK)
+  end.
+
+Definition seek_code (s : sstate) (f : seek_from) : sstate :=
+  match f with
+  | SeekStart n => s_mix (s_mix s 1) n
+  | SeekEnd z => s_mix (s_mix s (if (z <? 0)%Z then 2 else 3)) (Z.abs_N z)
+  | SeekCurrent z => s_mix (s_mix s (if (z <? 0)%Z then 4 else 5)) (Z.abs_N z)
+  end.
+
+Definition sc_seek (s : sstate) (f : seek_from) : sstate * io_result N N :=
+  let '(e, s') := spop s in
+  let s' := seek_code s' f in
+  match norm e with
+  | CK k => (s_goto s' k, IoOk k)
+  | CE c => (s', IoErr c)
+  | CP => (s', IoErr E_WOULDBLOCK)
+  end.
+
+Definition sc_write (s : sstate) (d : list N) : sstate * io_result N N :=
+  let '(e, s') := spop s in
+  match norm e with
+  | CK k => let m := N.min k (N.of_nat (length d)) in
+            let s2 := fold_left s_mix (firstn (N.to_nat m) d) s' in
+            (s_adv s2 m, IoOk m)
+  | CE c => (s', IoErr c)
+  | CP => (s', IoErr E_WOULDBLOCK)
+  end.
+
+Definition sc_done (s : sstate) : sstate * io_result N unit :=
+  let '(e, s') := spop s in
+  match norm e with
+  | CK _ => (s', IoOk tt)
+  | CE c => (s', IoErr c)
+  | CP => (s', IoErr E_WOULDBLOCK)
+  end.
+
+Definition sc_poll_write (s : sstate) (d : list N) : sstate * poll (io_result N N) :=
+  match fst (spop s) with
+  | EvPend => (snd (spop s), Pending)
+  | _ => let '(s', r) := sc_write s d in (s', Ready r)
+  end.
+
+Definition sc_poll_done (s : sstate) : sstate * poll (io_result N unit) :=
+  match fst (spop s) with
+  | EvPend => (snd (spop s), Pending)
+  | _ => let '(s', r) := sc_done s in (s', Ready r)
+  end.
+
+Definition sc_poll_read (s : sstate) (filled cap : N)
+  : sstate * (list N * N * poll (io_result N unit)) :=
+  let '(e, s') := spop s in
+  match e with
+  | EvN k => let m := N.min k (cap - filled) in
+             (s_adv s' m, (pat (s_ctr s') m, filled + m, Ready (IoOk tt)))
+  | EvPartialErr k c => let m := N.min k (cap - filled) in
+             (s_adv s' m, (pat (s_ctr s') m, filled + m, Ready (IoErr c)))
+  | EvErr c => (s', ([], filled, Ready (IoErr c)))
+  | EvPend => (s', ([], filled, Pending))
+  | EvShrink k => (s', ([], filled - N.min k filled, Ready (IoOk tt)))
+  | EvItem _ | EvEnd => (s', ([], filled, Ready (IoOk tt)))
+  end.
+
+Definition sc_start_seek (s : sstate) (f : seek_from) : sstate * io_result N unit :=
+  let '(e, s') := spop s in
+  let s' := seek_code s' f in
+  match norm e with
+  | CK _ => (s', IoOk tt)
+  | CE c => (s', IoErr c)
+  | CP => (s', IoErr E_WOULDBLOCK)
+  end.
+
+Definition sc_poll_complete (s : sstate) : sstate * poll (io_result N N) :=
+  let '(e, s') := spop s in
+  match norm e with
+  | CK k => (s_goto s' k, Ready (IoOk k))
+  | CE c => (s', Ready (IoErr c))
+  | CP => (s', Pending)
+  end.
+
+Definition sc_poll_fill_buf (s : sstate) : sstate * poll (io_result N (list N)) :=
+  let '(e, s') := spop s in
+  match norm e with
+  | CK k => (s', Ready (IoOk (pat (s_ctr s') (N.min k 32))))
+  | CE c => (s', Ready (IoErr c))
+  | CP => (s', Pending)
+  end.
+
+Definition sc_poll_next (s : sstate) : sstate * poll (option N) :=
+  let '(e, s') := spop s in
+  match e with
+  | EvItem x => (s', Ready (Some x))
+  | EvPend => (s', Pending)
+  | _ => (s', Ready None)
+  end.
+
+Definition scripted : inner sstate N N (list N) := {|
+  i_next := sc_item false;
+  i_next_back := sc_item true;
+  i_size_hint := fun s => (leading_items (s_evs s), Some (leading_items (s_evs s)));
+  i_len := fun s => leading_items (s_evs s);
+  i_read := sc_read;
+  i_read_vectored := fun s ns => sc_read s (sum_N ns);
+  i_read_to_string := sc_read_to_string;
+  i_read_exact := sc_read_exact;
+  i_fill_buf := sc_fill_buf;
+  i_consume := fun s amt => s_adv (s_mix (s_mix s 8) amt) amt;
+  i_seek := sc_seek;
+  i_stream_position := fun s => (s, IoOk (s_ctr s));
+  i_write := sc_write;
+  i_write_vectored := fun s ds => sc_write s (concat ds);
+  i_flush := sc_done;
+  i_poll_write := sc_poll_write;
+  i_poll_flush := sc_poll_done;
+  i_poll_shutdown := fun s => sc_poll_done (s_mix s 7);
+  i_poll_read := sc_poll_read;
+  i_start_seek := sc_start_seek;
+  i_poll_complete := sc_poll_complete;
+  i_poll_fill_buf := sc_poll_fill_buf;
+  i_aconsume := fun s amt => s_adv (s_mix (s_mix s 9) amt) amt;
+  i_poll_next := sc_poll_next;
+  i_stream_size_hint := fun s => (leading_items (s_evs s), None)
+|}.
+
+(* ------------------------------------------------------------------ *)
+(** * Correspondence cases *)
+Definition scall := call (list N).
+Definition sret := ret N N (list N).
+
+(** what the test program does to the bar through its own handle, between adaptor calls *)
+Inductive userop := USetPos (p : N) | UFinish | UAbandon | UReset | USetLen (l : N).
+
+Definition user_step (b : bar) (u : userop) : bar :=
+  match u with
+  | USetPos p => bar_set_position b p
+  | UFinish => bar_finish b AndLeave              (* ProgressBar::finish *)
+  | UAbandon => bar_finish b Abandon              (* ProgressBar::abandon *)
+  | UReset => bar_reset b
+  | USetLen l => {| b_pos := b_pos b; b_len := Some l; b_status := b_status b;
+                    b_msg := b_msg b; b_on_finish := b_on_finish b |}
+  end.
+
+Inductive step := SCall (c : scall) | SUser (u : userop).
+Inductive obs := ObsRet (r : sret) | ObsPanic | ObsUser.
+
+(* decidable equality on the observed results *)
+Definition io_eqb {A} (eqb : A -> A -> bool) (a b : io_result N A) : bool :=
+  match a, b with
+  | IoOk x, IoOk y => eqb x y
+  | IoErr x, IoErr y => N.eqb x y
+  | _, _ => false
+  end.
+Definition poll_eqb {A} (eqb : A -> A -> bool) (a b : poll A) : bool :=
+  match a, b with
+  | Ready x, Ready y => eqb x y
+  | Pending, Pending => true
+  | _, _ => false
+  end.
+Definition unit_eqb (a b : unit) : bool := true.
+Definition lN_eqb := list_eqb N.eqb.
+Definition hint_eqb (a b : N * option N) : bool :=
+  N.eqb (fst a) (fst b) && option_eqb N.eqb (snd a) (snd b).
+
+Definition sret_eqb (a b : sret) : bool :=
+  match a, b with
+  | RItem x, RItem y => option_eqb N.eqb x y
+  | RHint x, RHint y => hint_eqb x y
+  | RLen x, RLen y => N.eqb x y
+  | RCount d r, RCount d' r' => lN_eqb d d' && io_eqb N.eqb r r'
+  | RExact d r, RExact d' r' => lN_eqb d d' && io_eqb unit_eqb r r'
+  | RSlice r, RSlice r' => io_eqb lN_eqb r r'
+  | RUnit, RUnit => true
+  | RNum r, RNum r' => io_eqb N.eqb r r'
+  | RDone r, RDone r' => io_eqb unit_eqb r r'
+  | RPollNum r, RPollNum r' => poll_eqb (io_eqb N.eqb) r r'
+  | RPollDone r, RPollDone r' => poll_eqb (io_eqb unit_eqb) r r'
+  | RPollRead d f r, RPollRead d' f' r' =>
+      lN_eqb d d' && N.eqb f f' && poll_eqb (io_eqb unit_eqb) r r'
+  | RPollSlice r, RPollSlice r' => poll_eqb (io_eqb lN_eqb) r r'
+  | RPollItem r, RPollItem r' => poll_eqb (option_eqb N.eqb) r r'
+  | _, _ => false
+  end.
+
+Definition sW := W sstate.
+
+Definition bar_obs_ok (b : bar) (p : N) (f : bool) : bool :=
+  N.eqb (b_pos b) p && Bool.eqb (bar_is_finished b) f.
+
+(** replays the steps on the model; [None] as soon as an observation differs *)
+Fixpoint seq_run (w : sW) (steps : list (step * (obs * N * bool))) : option sW :=
+  match steps with
+  | [] => Some w
+  | (SUser u, (o, p, f)) :: rest =>
+      let w' := (fst w, user_step (snd w) u) in
+      match o with
+      | ObsUser => if bar_obs_ok (snd w') p f then seq_run w' rest else None
+      | _ => None
+      end
+  | (SCall c, (o, p, f)) :: rest =>
+      match wrap_step _ _ _ _ scripted w c, o with
+      | Ok (w', r), ObsRet r' =>
+          if sret_eqb r r' && bar_obs_ok (snd w') p f then seq_run w' rest else None
+      | Panic _, ObsPanic =>
+          (* the adaptor panicked before touching the bar; the case ends here *)
+          match rest with [] => if bar_obs_ok (snd w) p f then Some w else None | _ => None end
+      | _, _ => None
+      end
+  end.
+
+Inductive c17case :=
+| CaseSeq (len : option N) (pos0 : N) (fin : finish) (script : list ev)
+          (steps : list (step * (obs * N * bool)))
+          (final_msg : list N) (final_sink final_ctr : N) (final_len : option N)
+| CaseRayon (len : option N) (pos0 : N) (fin : finish) (items : N)
+            (final_pos : N) (final_finished : bool).
+
+Definition bar0 (len : option N) (pos0 : N) (fin : finish) : bar :=
+  {| b_pos := pos0; b_len := len; b_status := InProgress; b_msg := []; b_on_finish := fin |}.
+
+Definition adaptors_check (c : c17case) : bool :=
+  match c with
+  | CaseSeq len pos0 fin script steps fmsg fsink fctr flen =>
+      match seq_run ({| s_evs := script; s_ctr := 0; s_sink := 0 |}, bar0 len pos0 fin) steps with
+      | Some (s, b) =>
+          lN_eqb (b_msg b) fmsg && N.eqb (s_sink s) fsink && N.eqb (s_ctr s) fctr
+          && option_eqb N.eqb (b_len b) flen
+      | None => false
+      end
+  | CaseRayon len pos0 fin items fpos ffin =>
+      (* whatever the split and the schedule, [items] increments of 1 reach the bar
+         (theorems rayon_consumer_count, rayon_producer_count): evaluate them in one order *)
+      let b := N.iter items (fun b => bar_inc b 1) (bar0 len pos0 fin) in
+      bar_obs_ok b fpos ffin
+  end.
